@@ -513,7 +513,7 @@ def check_C20(tier):
     for kind in ("linear", "log16", "log8", "hll", "hh"):
         for j in range(2 if quick else 4):
             files.append(P.prefix_events(rng, kind, stride=1 if j % 2 == 0 else (7 if quick else 1), overwrite=(j % 2 == 1)))
-        files.append(P.prefix_events(rng, kind, large=True))
+        files.append(P.prefix_events(rng, kind, large=True, stride=211 if quick else 3))     # (thorough: every third offset of a 64 KiB+ file)
     P.validate(rep, files, [], "c20")
     per = {}
     for f in files:
